@@ -2,3 +2,8 @@ import PandoraModel.Properties.C02
 #print axioms Pandora.C02.popcount_source_eq_model
 #print axioms Pandora.C02.typeMeasure_source_eq_model
 #print axioms Pandora.C02.cmax_source_eq_model
+#print axioms Pandora.C02.costVolume_eq_spec_of_raw
+#print axioms Pandora.C02.rawOK_sad_ssd
+#print axioms Pandora.C02.rawOK_zncc
+#print axioms Pandora.C02.costVolume_eq_spec_sad_ssd
+#print axioms Pandora.C02.costVolume_eq_spec_zncc
